@@ -117,6 +117,10 @@ def run(prog, rep):
     rep.attempt(PR.tdftype_primitives, prog, rep)
     rep.attempt(PR.string_codec, prog, rep)
     rep.attempt(PR.date_codec, prog, rep)
+    from ..codecs import no_stale_derived_state
+    from .c01 import equivalence_discharge
+    rep.attempt(no_stale_derived_state, prog, cd, rep)
+    equivalence_discharge(prog, cd, rep, extra=("explicit-channel-honoured",))
     # comments / labels reach the file unaltered only if the string writer refuses what does not fit instead of cutting it
     from .c13 import string_write_rules
     rep.attempt(string_write_rules, prog, rep)
